@@ -1,5 +1,6 @@
 import Proofs.VecEnvWrap
 import Proofs.VecEnvGenEq
+import Proofs.VecRecvGenEq
 
 /-!
 # C12 — the vectorised multi-agent environment equals N independent environments
@@ -410,5 +411,114 @@ example : worker_step (fun _ : Unit => false) id (0 : Int) chunkCtor
     some ((2, 0), ((0, [some [[20]]]), ([some 1], [some false], [some true], [some 0]))) := by rfl
 
 end translation
+
+/-! ## source translation of the receive side and the shared-memory layout (`Gen/VecRecvGen.lean`)
+
+`harness/py2lean_vecrecv.py` translates `_create_memory_array`, `create_shared_memory`, `write_to_shared_memory`
+(and the worker's calls of it), `Observations.__init__ / __getitem__`, `step_wait`, `reset_wait`, `_add_info`;
+`Proofs/VecRecvGenEq.lean` proves the generated slice arithmetic equal to the model's.  Buffers are flat lists,
+shapes dimension lists, dtypes erased. -/
+section recv
+open VecRecvGen
+
+/-- (i-a) writer and reader use the same offset and width: each of the three slices of the generated
+    `write_to_shared_memory` (Dict member, Tuple member, plain space) is `[i*size, i*size + size)`, and row `i` of
+    the generated reader's `reshape((num_envs, *shape'))` (`shape' = shape`, or `(1,)` for a scalar space) has the
+    same width `size = prod(shape)` — for all indices and shapes -/
+theorem C12_source_translation_recv_same_offset (i : Nat) (shape : List Nat) :
+    write_to_shared_memory_slice0 i (npProd shape) = (i * shapeSize shape, i * shapeSize shape + shapeSize shape) ∧
+    write_to_shared_memory_slice1 i (npProd shape) = (i * shapeSize shape, i * shapeSize shape + shapeSize shape) ∧
+    write_to_shared_memory_slice2 i (npProd shape) = (i * shapeSize shape, i * shapeSize shape + shapeSize shape) ∧
+    shapeSize (viewShape shape) = shapeSize shape :=
+  ⟨by rw [gen_slice0_eq]; rfl, by rw [gen_slice1_eq]; rfl, by rw [gen_slice2_eq]; rfl, shapeSize_viewShape shape⟩
+
+/-- (i-b) read-after-write through the generated code, for every number of environments `n`, every number of
+    agents with arbitrary plain shapes, every worker `i < n`: after the generated `write_to_shared_memory(i, obs)`,
+    the generated `Observations(shared_memory, spaces, n)[a]` is the agent's buffer reshaped to
+    `(n, *shape')`, its row `i` is exactly the flattened observation worker `i` wrote for agent `a`, and every
+    other row `j ≠ i` is what it was before -/
+theorem C12_source_translation_recv_read_after_write (i n : Nat) (shapes : List (List Nat))
+    (obs : List (NdArr α)) (bufs : List (List α)) (hi : i < n)
+    (hA : obs.length = shapes.length) (hB : bufs.length = shapes.length)
+    (hconf : ∀ (a : Nat) (sh : List Nat), shapes[a]? = some sh →
+      (∀ x : NdArr α, obs[a]? = some x → x.data.length = shapeSize sh) ∧
+      (∀ b : List α, bufs[a]? = some b → b.length = n * shapeSize sh)) :
+    ∃ bufs' : List (List α),
+      write_to_shared_memory i (leafDict obs) (leafDict bufs) (boxSpaces shapes) = some (leafDict bufs') ∧
+      ∃ o, Observations.init (leafDict bufs') (boxSpaces shapes) n = some o ∧
+        ∀ (a : Nat) (sh : List Nat) (x : NdArr α) (b : List α),
+          shapes[a]? = some sh → obs[a]? = some x → bufs[a]? = some b →
+          ∃ b', Observations.getitem o a = some (.leaf ⟨n :: viewShape sh, b'⟩) ∧
+            readRow b' (shapeSize sh) i = x.data ∧
+            ∀ j, j ≠ i → readRow b' (shapeSize sh) j = readRow b (shapeSize sh) j := by
+  refine ⟨_, gen_write_box_eq i n shapes obs bufs hi hA hB hconf, ?_⟩
+  refine ⟨_, gen_init_box_eq n shapes _ ?_, ?_⟩
+  · have := length_foldl_modify (β := NdArr α) (γ := List α)
+      (fun p b => writeSlice b (i * shapeSize ((shapes[p.1]?).getD [])) p.2.data)
+      ((obs.zipIdx 0).map (fun p => (p.2, p.1))) bufs
+    simp only [List.foldl_map] at this
+    rw [this, hB]
+  · intro a sh x b hs hx hb
+    have hbuf := gen_write_box_getElem? i shapes obs bufs a
+    simp only [hx, hb, hs, Option.map_some, Option.getD_some] at hbuf
+    refine ⟨writeSlice b (i * shapeSize sh) x.data, gen_getitem_box_eq _ a sh _ ?_ ?_ ?_, ?_⟩
+    · simp [PyDict.get, boxSpaces, hs]
+    · simp [PyDict.get, leafDict, hbuf]
+    · simp only [writeSlice, List.length_mapIdx]; exact (hconf a sh hs).2 b hb
+    · exact ⟨readRow_writeSlice_same b n (shapeSize sh) i x.data ((hconf a sh hs).2 b hb) hi ((hconf a sh hs).1 x hx),
+        fun j hj => readRow_writeSlice_other b (shapeSize sh) i j x.data hj ((hconf a sh hs).1 x hx)⟩
+
+/-- (ii) the generated slices of the `n` workers partition the buffer the generated `_create_memory_array`
+    allocates: its length is `n * prod(shape)`; every slice lies inside it; every cell belongs to the slice of
+    exactly one worker (no overlap, no gap) — for all `n` and shapes, for each of the three generated slices -/
+theorem C12_source_translation_recv_slices_partition [Inhabited α] (n : Nat) (shape : List Nat) :
+    (∃ buf : List α, create_memory_array (α := α) n (⟨shape⟩ : SubSpace) = some buf ∧
+      create_memory_array (α := α) n (Space.box shape) = some buf ∧ buf.length = n * npProd shape) ∧
+    (∀ i, i < n → (write_to_shared_memory_slice2 i (npProd shape)).2 ≤ n * npProd shape) ∧
+    (∀ k, k < n * npProd shape → ∃ i, i < n ∧
+      ((write_to_shared_memory_slice2 i (npProd shape)).1 ≤ k ∧ k < (write_to_shared_memory_slice2 i (npProd shape)).2) ∧
+      ∀ j, ((write_to_shared_memory_slice2 j (npProd shape)).1 ≤ k ∧
+            k < (write_to_shared_memory_slice2 j (npProd shape)).2) → j = i) ∧
+    (∀ i sz, write_to_shared_memory_slice0 i sz = write_to_shared_memory_slice2 i sz ∧
+             write_to_shared_memory_slice1 i sz = write_to_shared_memory_slice2 i sz) := by
+  refine ⟨⟨_, gen_create_memory_array_eq n ⟨shape⟩, gen_create_memory_array_box_eq n shape, by simp [bufLen, npProd_eq]⟩,
+    ?_, ?_, fun i sz => ⟨by rw [gen_slice0_eq, gen_slice2_eq], by rw [gen_slice1_eq, gen_slice2_eq]⟩⟩
+  · intro i hi
+    rw [gen_slice2_eq]
+    have := slice_in_bounds (npProd shape) n i hi
+    simpa [sliceOf] using this
+  · intro k hk
+    generalize npProd shape = sz at hk ⊢
+    have hsz : 0 < sz := by
+      rcases Nat.eq_zero_or_pos sz with h | h
+      · subst h; simp at hk
+      · exact h
+    refine ⟨k / sz, (Nat.div_lt_iff_lt_mul hsz).2 hk, ?_, ?_⟩
+    · rw [gen_slice2_eq]
+      have h1 := Nat.div_add_mod k sz
+      have h2 := Nat.mod_lt k hsz
+      have h3 : k / sz * sz = sz * (k / sz) := Nat.mul_comm _ _
+      simp only [sliceOf]
+      omega
+    · intro j hj
+      rw [gen_slice2_eq] at hj
+      simp only [sliceOf] at hj
+      have h1 := Nat.div_add_mod k sz
+      have h2 := Nat.mod_lt k hsz
+      have h3 : k / sz * sz = sz * (k / sz) := Nat.mul_comm _ _
+      by_contra hne
+      exact slices_disjoint sz j (k / sz) k hne hj ⟨by omega, by omega⟩
+
+/-- (iii) on a concrete run: the generated `step_wait` on two pipes (replies of env 0 and env 1, two agents) returns
+    per agent the rows in pipe-index order; the pipes list is indexed by the loop, so which worker finished first
+    is not an input of the function at all -/
+example : (step_wait (R := Nat) (K := Nat) (α := Nat) (fun k => k + 100) 3
+    { num_envs := 2, agents := [0, 1],
+      parent_pipes := [⟨some ((⟨[some 10, some 11]⟩, ⟨[some false, some true]⟩, ⟨[some false, some false]⟩, .dict []), true)⟩,
+                       ⟨some ((⟨[some 20, some 21]⟩, ⟨[some true, some true]⟩, ⟨[some false, some true]⟩, .dict []), true)⟩],
+      observations := ⟨2, ⟨[]⟩, ⟨[]⟩, [], ⟨[]⟩⟩, copy := true }).map (fun r => (r.2.1, r.2.2.1, r.2.2.2.1)) =
+    some (⟨[some [10, 20], some [11, 21]]⟩, ⟨[some [false, true], some [true, true]]⟩,
+          ⟨[some [false, false], some [false, true]]⟩) := by decide
+end recv
 
 end VecEnv
